@@ -1,7 +1,7 @@
 // Second route into the evaluator: a program rendered as Sysl view source and compiled by the real parser
 // (pkg/parse listener glue), then evaluated like the protobuf route. Only programs inside the renderable subset
 // qualify: transforms occur only as the whole right-hand side of a statement (the grammar allows nothing else),
-// no empty collection literals, no map literals, no minimum int64 literal, no unary bool negation / single / str.
+// no empty collection literals, no map literals, no minimum int64 literal, no str (it has no spelling outside templates).
 package main
 
 import (
@@ -91,6 +91,16 @@ func srcExpr(e *Expr) string {
 			p[i] = srcExpr(a)
 		}
 		return srcIdent(e.Name) + "(" + strings.Join(p, ", ") + ")"
+	case "un":
+		// unaryTerm: '-' power (ints and, for the evaluator, bools alike: NEG); relop `single`. `str` has no spelling
+		// outside templates (the name `str(...)` is an ordinary call), `!` is Expr_UnExpr_NOT, another operator.
+		switch e.Op {
+		case "NEG":
+			return "(-(" + srcExpr(e.A[0]) + "))"
+		case "SINGLE":
+			return "((" + srcExpr(e.A[0]) + ") single)"
+		}
+		bail("unary " + e.Op)
 	case "bin":
 		if e.Op == "WHERE" || e.Op == "FLATTEN" {
 			sv := ""
